@@ -11,7 +11,7 @@ import json, os, shutil, subprocess, sys, time
 prop, i = sys.argv[1], sys.argv[2]
 checks = sys.argv[3:] or [prop]
 rnd = os.environ.get("SEED_ROUND", "r1")
-wt, src = "/tmp/mut-%s" % prop, "/tmp/mut-%s-out-%s/%s" % (prop, rnd, i)
+wt, src = os.environ.get("SEED_WT", "/tmp/mut-%s" % prop), os.environ.get("SEED_SRC", "/tmp/mut-%s-out-%s" % (prop, rnd)) + "/" + i
 dst = "/verif/seeded/%s-%s%s" % (prop, "" if rnd == "r1" else rnd + "-", i)
 env = dict(os.environ, CARGO_NET_OFFLINE="true", CARGO_TARGET_DIR=wt + "/target")
 def sh(cmd, cwd=None, e=env, timeout=3600):
